@@ -485,8 +485,13 @@ func IterateNaluAnnexb(nals []byte, handler func(nal []byte)) error {
 		start := prePos + preLength
 		pos, length := IterateNaluStartCode(nals, start)
 		if pos == -1 {
-			if start < len(nals) {
-				handler(nals[start:])
+			// 注意，nal的最后一个字节不会是0x00，数据末尾的0x00是trailing_zero_8bits，不属于nal
+			end := len(nals)
+			for end > start && nals[end-1] == 0 {
+				end--
+			}
+			if start < end {
+				handler(nals[start:end])
 				return nil
 			} else {
 				return nazaerrors.Wrap(base.ErrAvc)
